@@ -235,6 +235,8 @@ def run(tier):
     ptexts = sorted(set(c["text"] for c in pool if not c["text"].startswith(("j", "call", "xbegin", "ret", "loop"))))
     if not full:
         ptexts = rnd.sample(ptexts, min(len(ptexts), 9000))
+    BRANCHES = ["jmp 0x10", "jne long -0x80", "call 0x12345", "jmp short -3", "jrcxz 5", "jb 0x7f", "call -0x7ffffff0", "jmp long 0x12345678", "jg short 0x10", "xbegin 0x100"]
+    ptexts = sorted(set(ptexts) | set(BRANCHES))
     palone = {m: corpus.accepted_alone(binary, ptexts, m) for m in masks}
     pok = [t for t in ptexts if all(t in palone[m] and palone[m][t] for m in masks)]
     bym = {}
@@ -292,8 +294,8 @@ def run(tier):
                 out.append(t[:mm.start()] + REGSWAP[mm.group(1)] + t[mm.end():])
                 break
         return [x for x in out if x != t]
-    longs = [t for t in pok if len(t) >= 24]
-    seeds7 = rnd.sample(longs, min(len(longs), 500 if not full else 8000))
+    longs = [t for t in pok if len(t) >= 24 and t not in BRANCHES]
+    seeds7 = rnd.sample(longs, min(len(longs), 500 if not full else 8000)) + [t for t in BRANCHES if t in pok]
     fam7 = {t: variants(t) for t in seeds7}
     allv = sorted(set(x for vs in fam7.values() for x in vs))
     valone = corpus.accepted_alone(binary, allv, "211")
